@@ -105,7 +105,8 @@ def _select_record(case: dict) -> dict:
     return {'kind': 'select', 'case': case, 'actual': actual}
 
 
-def _uri_tags(*uris: dict) -> list[str]:
+def _uri_tags(*uris: dict) -> str:
+    """Primary feature of the URIs of a failing case (one tag, by priority) - discriminates classes of defects."""
     tags = set()
     for u in uris:
         for seg in u['segs']:
@@ -119,13 +120,17 @@ def _uri_tags(*uris: dict) -> list[str]:
                 tags.add('encoded_letter')
         if u['auth'] == 'None':
             tags.add('no_authority')
-    if len(uris) == 2:
-        a, b = uris
-        if a['scheme'] != b['scheme'] and a['scheme'].lower() == b['scheme'].lower():
-            tags.add('scheme_case')
-        if a['auth'] != b['auth'] and a['auth'].lower() == b['auth'].lower():
-            tags.add('authority_case')
-    return sorted(tags)
+    for a in uris:
+        for b in uris:
+            if a['scheme'] != b['scheme'] and a['scheme'].lower() == b['scheme'].lower():
+                tags.add('scheme_case')
+            if a['auth'] != b['auth'] and a['auth'].lower() == b['auth'].lower():
+                tags.add('authority_case')
+    for t in ('encoded_slash', 'double_encoded', 'encoded_letter', 'empty_segment', 'authority_case', 'scheme_case',
+              'no_authority'):
+        if t in tags:
+            return t
+    return 'plain'
 
 
 def _part_a(run):
@@ -277,9 +282,10 @@ def _part_b(run):
                             stats[key] += 1
         if len(t) > 1:
             run.distinct_traces.add(tuple(_step_signature(r) for r in t[1:]))
-    missing = [k for k, v in stats.items() if v == 0]
-    if missing:
-        raise MachineryError(f'vacuous replay: situations never exercised on the real node: {missing}')
+    # side observation (not part of C14): version announced by the node's own Hello vs. version it holds
+    hello_mismatch = sum(1 for t in traces for r in t[1:] if r['act'] == 'Publish' and r['sent'] and r['sent'][0]['anns']
+                         and any(s['e'] == r['e'] and s['mv'] != r['sent'][0]['anns'][0]['mv'] for s in r['obs']['local']))
+    run.note('observation_own_hello_version_differs_from_published_version', hello_mismatch)
     run.note('node_replay', {'behaviours': {s: sum(1 for x, _ in behs if x == s) for s in ('sim', 'tree', 'long')},
                              'situations': stats})
     run.sample({'node_trace': [{k: v for k, v in r.items() if k in ('act', 'msg', 'sent')} for r in traces[0][1:3]]})
@@ -305,6 +311,10 @@ def _part_b(run):
                              f'remote={rec["obs"]["remote"]}',
                       {'part': 'b', 'meta': meta[ti], 'behaviour': behs[ti][1], 'trace': traces[ti],
                        'failing_record': li, 'clause': clause})
+    # vacuity of the replay (judged last: a defect of the code must surface as a violation, not as this error)
+    missing = [k for k, v in stats.items() if v == 0]
+    if missing and not run.violations and not run.known_hits:
+        raise MachineryError(f'vacuous replay: situations never exercised on the real node: {missing}')
 
 
 def check(run, replay_path=None):  # noqa: ARG001
